@@ -54,16 +54,18 @@ type bsim struct {
 	extPrefix    []string // per module: what external paths are prefixed with
 	refErrors    []refError
 	filterTypes  []string
-	lintExcept   []string
-	permutePaths bool
-	faults       bool
-	faultRate    int
-	faultBudget  int
-	cancelAt     int
-	arrival      []string
-	against      map[string]string
-	pins         *remotePins
-	counters     map[string]int
+	// excludeSourceInfo: the current pipeline execution builds without source info (prelude only)
+	excludeSourceInfo bool
+	lintExcept        []string
+	permutePaths      bool
+	faults            bool
+	faultRate         int
+	faultBudget       int
+	cancelAt          int
+	arrival           []string
+	against           map[string]string
+	pins              *remotePins
+	counters          map[string]int
 }
 
 // Each check reports only what its own property states. An image that is a correct compilation
@@ -107,6 +109,10 @@ func (p *readPolicy) Decide(s *sched.Sim, op sched.Op) sched.Decision {
 	m := p.m
 	if op.Kind == "get" {
 		m.arrival = append(m.arrival, op.Path)
+	}
+	if m.faults && op.Kind == "read" && s.Tape.Draw("shortread?", 4) == 3 {
+		// not a failure: a reader may hand out fewer bytes than asked for; the build goes on
+		return sched.Decision{Fault: "short-read", Arg: s.Tape.Draw("shortreadn", 4096)}
 	}
 	if !m.faults || m.faultBudget == 0 {
 		return sched.Decision{}
@@ -248,7 +254,11 @@ func (m *bsim) pipeline(ctx context.Context, withOutputs bool) *result {
 		res.err = err
 		return res
 	}
-	image, err := bufimage.BuildImage(ctx, slogext.NopLogger, bufmodule.ModuleSetToModuleReadBucketWithOnlyProtoFiles(moduleSet))
+	var buildOpts []bufimage.BuildImageOption
+	if m.excludeSourceInfo {
+		buildOpts = append(buildOpts, bufimage.WithExcludeSourceCodeInfo())
+	}
+	image, err := bufimage.BuildImage(ctx, slogext.NopLogger, bufmodule.ModuleSetToModuleReadBucketWithOnlyProtoFiles(moduleSet), buildOpts...)
 	if err != nil {
 		res.err = err
 		return res
@@ -528,6 +538,26 @@ func Run(tp *tape.Tape, env *engine.Env) *engine.Outcome {
 	for i := range m.ws.Modules {
 		m.extPrefix = append(m.extPrefix, tape.Pick(tp, "extprefix", []string{"", fmt.Sprintf("proj/mod%d", i), fmt.Sprintf("/abs/ws/mod%d", i), fmt.Sprintf("../rel%d", i), "."}))
 	}
+	// sometimes the same process has built ANOTHER workspace before (an editor integration, the other
+	// side of a breaking comparison, a Go API user): nothing of it may leak into this build. The other
+	// workspace often supplies well-known types itself and may have been built without source info.
+	if tp.Draw("prelude", 3) == 2 {
+		other := wsgen.New(tp, wsgen.Options{MaxModules: 2, MaxFiles: 4, SupplyWKT: wktContent, ForceSupplyWKT: tp.Draw("preludewkt", 3) != 0, NoEditions: true})
+		main, prefixes := m.ws, m.extPrefix
+		m.ws, m.extPrefix = other, nil
+		m.excludeSourceInfo = tp.Draw("preludenosrc", 3) == 2
+		thread.SetParallelism(4)
+		s.Unhashed = true
+		res := m.pipeline(context.Background(), false)
+		s.Unhashed = false
+		m.ws, m.extPrefix, m.excludeSourceInfo = main, prefixes, false
+		if res.err != nil {
+			s.Violate("harness-reference", "harness|prelude-failed", "building the other workspace failed: %v", res.err)
+			s.Drain()
+			return engine.FromSim(s)
+		}
+		s.Probe("another-workspace-built-before")
+	}
 	var ref map[string]*descriptorpb.FileDescriptorProto
 	if mode == "planted" {
 		m.refErrors = m.referenceErrors()
@@ -610,9 +640,10 @@ func Run(tp *tape.Tape, env *engine.Env) *engine.Outcome {
 			m.faults, m.cancelAt = false, 0
 			s.FIFO, s.Unhashed = true, true
 		}
-		fired := totalFired(s)
+		fired, short := totalFired(s), s.Faults["short-read"]
 		res := m.run(m.prop == "C02")
-		fired = totalFired(s) - fired
+		// (a short read is legal reader behaviour, not a failure)
+		fired = totalFired(s) - fired - (s.Faults["short-read"] - short)
 		s.FIFO, s.Unhashed = false, false
 		site := "perturbed"
 		if ambient {
@@ -639,6 +670,8 @@ func Run(tp *tape.Tape, env *engine.Env) *engine.Outcome {
 				if res.outputs["image"] != base.outputs["image"] {
 					m.violate("fault-transparency", site, "an injected read fault fired (%d) and the build returned a different image without error", fired)
 				}
+			} else if fired == 0 {
+				m.violate("schedule-independence", site, "build failed although nothing failed (only short reads were served): %v", res.err)
 			} else {
 				m.s.Probe("build-failed-under-fault")
 			}
